@@ -65,6 +65,8 @@ pub struct World {
     pub pipe_r: Option<std::fs::File>,
     pub weak: BTreeMap<i64, indicatif::WeakProgressBar>,
     pub pty_master: Option<std::fs::File>,
+    /// one ProgressStyle object per template name, handed out as clones and kept alive, the way applications share a style between bars
+    pub styles: BTreeMap<String, ProgressStyle>,
 }
 
 /// A console::Term over the slave side of a pty (so `is_term()` is true and the size comes from the window size we set); the
@@ -159,7 +161,7 @@ impl World {
     pub fn new(cfg: &Value) -> World {
         let w = cfg["w"].as_u64().unwrap_or(80) as u16;
         let h = cfg["h"].as_u64().unwrap_or(24) as u16;
-        let mut world = World { spy: Spy::new(w, h), mp: None, bars: BTreeMap::new(), pipe_r: None, weak: BTreeMap::new(), pty_master: None };
+        let mut world = World { spy: Spy::new(w, h), mp: None, bars: BTreeMap::new(), pipe_r: None, weak: BTreeMap::new(), pty_master: None, styles: BTreeMap::new() };
         if let Some(m) = cfg.get("mp").and_then(|m| m.as_object()) {
             let t = m.get("target").and_then(|x| x.as_str()).unwrap_or("spy").to_string();
             let hz = m.get("hz").and_then(|x| x.as_u64()).unwrap_or(0);
@@ -170,6 +172,7 @@ impl World {
         }
         world
     }
+    pub fn shared_style(&mut self, name: &str) -> ProgressStyle { self.styles.entry(name.to_string()).or_insert_with(|| style(name)).clone() }
     fn bar(&self, b: i64) -> Option<&ProgressBar> { self.bars.get(&b).and_then(|v| v.first()) }
     /// calls decoded from what the real Term wrote to the pty since the last call
     pub fn pty_calls(&mut self) -> Vec<Value> {
@@ -205,7 +208,7 @@ fn make_bar(world: &mut World, op: &Value) -> ProgressBar {
         if let Some(m) = op.get("p0") { if m.as_array().map(|a| !a.is_empty()).unwrap_or(false) { pb = pb.with_prefix(tok::cells_to_string(m)); } }
     }
     if let Some(tw) = op.get("tabw").and_then(|x| x.as_u64()) { if op.get("tabw_first").and_then(|x| x.as_bool()).unwrap_or(false) { pb = pb.with_tab_width(tw as usize); } }
-    if let Some(name) = op.get("tpl").and_then(|x| x.as_str()) { pb = pb.with_style(style(name)); }
+    if let Some(name) = op.get("tpl").and_then(|x| x.as_str()) { pb = pb.with_style(world.shared_style(name)); }
     if let Some(tw) = op.get("tabw").and_then(|x| x.as_u64()) { if !op.get("tabw_first").and_then(|x| x.as_bool()).unwrap_or(false) { pb = pb.with_tab_width(tw as usize); } }
     if let Some(f) = op.get("fin").and_then(|x| x.as_str()) { pb = pb.with_finish(finish_of(f, op.get("fm").unwrap_or(&Value::Null))); }
     if !mfirst {
@@ -251,10 +254,10 @@ pub fn exec(world: &mut World, op: &Value) -> String {
         "dec_length" => pb!().dec_length(n),
         "set_message" => pb!().set_message(m()),
         "set_prefix" => pb!().set_prefix(m()),
-        "set_style" => pb!().set_style(style(op["tpl"].as_str().unwrap_or("M"))),
+        "set_style" => { let st = world.shared_style(op["tpl"].as_str().unwrap_or("M")); pb!().set_style(st) }
         "set_tab_width" => pb!().set_tab_width(n as usize),
         // take the bar's current style, give it a new template, put it back (keeps keys and tab width of the style object)
-        "restyle" => { let p = pb!(); let name = op["tpl"].as_str().unwrap_or("M"); let st = p.style().template(&tpl(name)).unwrap(); p.set_style(st); }
+        "restyle" => { let p = pb!(); let name = op["tpl"].as_str().unwrap_or("M"); let kept = p.style(); let st = kept.clone().template(&tpl(name)).unwrap(); p.set_style(st); world.styles.insert(format!("restyled-{}-{}", b, world.styles.len()), kept); }
         "reset" => pb!().reset(),
         "reset_eta" => pb!().reset_eta(),
         "reset_elapsed" => pb!().reset_elapsed(),
